@@ -13,13 +13,13 @@ pub struct P;
 pub static C07: P = P;
 
 #[derive(Serialize, Deserialize, Clone, Debug)]
-struct Case {
-    wrapper: String,
-    outer: String,
+pub struct Case {
+    pub wrapper: String,
+    pub outer: String,
     /// (first-line prefix, continuation prefix, content html)
-    parts: Vec<(String, String, String)>,
-    width: usize,
-    cfg: Cfg,
+    pub parts: Vec<(String, String, String)>,
+    pub width: usize,
+    pub cfg: Cfg,
 }
 
 fn quote_prefix(cfg: &Cfg) -> (String, String) {
@@ -111,7 +111,7 @@ pub fn wrappers(x: &str, cfg: &Cfg, tier: Tier) -> Vec<(String, String, Vec<(Str
     out
 }
 
-fn check(c: &Case, memo: &mut HashMap<(String, usize), Out<String>>, cx: &mut Cx) {
+pub fn check(c: &Case, memo: &mut HashMap<(String, usize), Out<String>>, cx: &mut Cx) {
     let outer = cx.render(c.outer.as_bytes(), c.width, &c.cfg);
     cx.state(1 + c.parts.len() as u64);
     let os = match &outer {
